@@ -96,7 +96,7 @@ def r18_3_ownership(chk):
     """Ownership of sets, on inlined value-flow summaries (helpers such as a private _get_or_make_set or a guard method
     are looked through): what the registration entry points of the per-logical-file registry do, and what each add_*
     does with the set it takes from the storage-unit-wide registry."""
-    from ..terms import (SELF, A, K, NONE, contains, subterms, is_call, call_name, call_arg, pp, attr_stores,
+    from ..terms import (ctor_calls, bound_arg, SELF, A, K, NONE, contains, subterms, is_call, call_name, call_arg, pp, attr_stores,
                          raise_conditions, same_call)
     ix = chk.ix
     model = Model(ix)
@@ -162,10 +162,10 @@ def r18_3_ownership(chk):
         chk.consult(f)
         su = chk.terms.inline(f, 3, stop=lambda g: g.cls is not None and g.cls.name in ("EFLRSetsDict",) or
                               g.name == "__init__")
-        ctors = [c for c in su.all_calls() if call_name(c) == ic.name and call_arg(c, kw="parent") is not None]
+        ctors = [c for c in ctor_calls(su, ic) if bound_arg(chk.terms, su, c, "parent") is not None]
         if not ctors:
             raise AnalysisError(f"{f.short}: item constructor call with parent= not found")
-        parent = call_arg(ctors[0], kw="parent")
+        parent = bound_arg(chk.terms, su, ctors[0], "parent")
         from_shared = is_call(parent, "get_or_make_set") and parent[1][1] == shared
         from_own = is_call(parent, "get_or_make_set") and parent[1][1] == own_reg
         ctor_pc = None
@@ -203,9 +203,11 @@ def r18_4_5_6(chk):
         chk.require(bool(reset) and not cls_level, "R18.4", "frame-counter-reset-per-iteration",
                     "the frame number counter is shared / not reset when iteration starts: numbering would not start "
                     "from 1 for every frame and every write", it_.where)
-        from ..terms import SELF as _S, A as _A, call_arg as _ca, is_call as _ic, return_alternatives as _ra
-        made = [t for _, t in _ra(chk.summary(nx))]
-        chk.require(bool(made) and all(_ic(t, "FrameData") and _ca(t, kw="frame_number") == _A(_S, counter) for t in made),
+        from ..terms import SELF as _S, A as _A, bound_arg as _ba, is_call as _ic, return_alternatives as _ra
+        nsum = chk.summary(nx)
+        made = [t for _, t in _ra(nsum)]
+        chk.require(bool(made) and all(_ic(t, "FrameData") and _ba(chk.terms, nsum, t, "frame_number") == _A(_S, counter)
+                                       for t in made),
                     "R18.4", "frame-number-is-the-counter",
                     "the record's frame number is not this frame's own counter", nx.where)
     # one generator per frame of each logical file: decided by the shared rule of C09 R09.1
